@@ -84,13 +84,25 @@ def check(rep, model, tier):
     rep.instances[before:] = [dict(i, rule='MID-LOCAL') for i in rep.instances[before:] if i['rule'] in ('WINDOW', 'MID-DEF')]
     before = len(rep.instances)
     c02.check(rep, model, tier)
-    rep.instances[before:] = [i for i in rep.instances[before:] if i['rule'] in ('BOUNDARY', 'PAD-AGREE')]
+    rep.instances[before:] = [i for i in rep.instances[before:] if i['rule'] in ('BOUNDARY', 'PAD-AGREE', 'CROSSING')]
     for i in rep.instances:
         if i['rule'] == 'PAD-AGREE':
             i['rule'] = 'BOUNDARY'
-    rep.rules = {k: v for k, v in rep.rules.items() if k in ('ROW-OFFSETS', 'PAIRING', 'OPT-EXCL', 'EFF-ROVIEW', 'CALL-BIND', 'MID-LOCAL', 'BOUNDARY')}
+    # the options stay in force on every call: the pipeline never writes through the caller's option dictionaries
+    summ, det, rounds, ro = common.effects(model)
+    for name in ('compute_features', 'compute_shape_features', 'compute_cyclepoints', 'find_extrema'):
+        fn = model.find(name)
+        hits = sorted((ln, c, via) for (w, ln, c, via) in det[fn.qual].mut if w[0] == 'P')
+        if hits:
+            rep.violation('OPTIONS-STABLE', name, f'{fn.path}:{hits[0][0]} {name}', expected='the caller\'s options (boundary, filter length, ...) are not altered by a call',
+                          found='; '.join(f'{c}' + (f' [via {v}]' if v else '') for _, c, v in hits[:3]) + ': a later call with the same dictionary runs with different options')
+        else:
+            rep.ok('OPTIONS-STABLE', name, f'{fn.path}:{fn.node.lineno} {name}', found='no write through an option dictionary')
+    rep.rules = {k: v for k, v in rep.rules.items() if k in ('ROW-OFFSETS', 'PAIRING', 'OPT-EXCL', 'EFF-ROVIEW', 'CALL-BIND', 'MID-LOCAL', 'BOUNDARY', 'CROSSING')}
+    rep.rule('OPTIONS-STABLE', 'compute_features / compute_shape_features / compute_cyclepoints / find_extrema never write through the option dictionaries they are given, so the '
+                               'requested boundary and filter length hold on every call that reuses them (shared with C15)')
     rep.floors = {k: v for k, v in rep.floors.items() if k in ('call sites bound',)}
-    rep.floor('rule instances', len(rep.instances), 45)
+    rep.floor('rule instances', len(rep.instances), 40)
 
 
 def opt_excl(rep, model):
